@@ -172,6 +172,25 @@ Fixpoint removal_terms (ys : list Q) (prev : epoch T) (es : list (epoch T * sol 
       end
   end.
 
+(* first term q_0(0) (the code writes the literal 0 for the origin), survival conditioning *)
+Definition first_term (e0 : epoch T) (s0 : sol T) : T :=
+  nln N (qform (sB s0) (nexp N (sA s0 *! (ofQ N (et1 e0) -! zero N)))).
+Definition surv_term (survival : bool) (e0 : epoch T) (s0 : sol T) : T :=
+  if survival then first_term e0 s0 -! nln N (c1 -! sp s0) else first_term e0 s0.
+Definition births_sum (times : list Q) (m : nat) (es : list (epoch T * sol T)) (xs : list Q) : T :=
+  nsum N (map (birth_term times m es) xs).
+Definition tips_sum (serial : bool) (times : list Q) (m : nat) (eps : list (epoch T))
+           (es : list (epoch T * sol T)) (r : option (list T)) (ys : list Q) : T :=
+  if serial then nsum N (map (tip_term times m eps es r) ys) else zero N.
+Definition removal_part (r : option (list T)) (ys : list Q) (e0 : epoch T)
+           (es' : list (epoch T * sol T)) (ntips : nat) : T :=
+  match r with
+  | None => zero N
+  | Some rl =>
+      (match rl with [] => zero N | _ :: rl' => removal_terms ys e0 es' rl' end)
+      +! nln N c2 *! ofNat N (nsub ntips 1)
+  end.
+
 Definition log_prob (survival : bool) (r : option (list T)) (eps : list (epoch T))
            (tips ints : list Q) : T :=
   let m := length eps in
@@ -184,19 +203,8 @@ Definition log_prob (survival : bool) (r : option (list T)) (eps : list (epoch T
   match es with
   | [] => zero N
   | (e0, s0) :: es' =>
-      let first := nln N (qform (sB s0) (nexp N (sA s0 *! (ofQ N (et1 e0) -! zero N)))) in
-      let surv := if survival then first -! nln N (c1 -! sp s0) else first in
-      let births := nsum N (map (birth_term times m es) xs) in
-      let tipt := if serial then nsum N (map (tip_term times m eps es r) ys) else zero N in
-      let bnd := boundary_terms xs ys e0 es' in
-      let rhot := rho_terms ys eps in
-      let rem := match r with
-                 | None => zero N
-                 | Some rl =>
-                     (match rl with [] => zero N | _ :: rl' => removal_terms ys e0 es' rl' end)
-                     +! nln N c2 *! ofNat N (nsub (length tips) 1)
-                 end in
-      surv +! births +! tipt +! bnd +! rhot +! rem
+      surv_term survival e0 s0 +! births_sum times m es xs +! tips_sum serial times m eps es r ys
+      +! boundary_terms xs ys e0 es' +! rho_terms ys eps +! removal_part r ys e0 es' (length tips)
   end.
 
 (* ---- building the epochs from the tensors of the code ---- *)
@@ -235,26 +243,36 @@ Definition bdsk_model_log_prob (survival : bool) (r : option (list T)) (R delta 
 (* ---- BirthDeath.log_prob: constant rates, written independently in the code ---- *)
 Definition bd_log_q (A B : T) (origin t : Q) : T := nln N (qform B (Eat A origin t)).
 
-Definition bd_log_prob (survival : bool) (lam mu psi : T) (rho origin : Q) (tips ints : list Q) : T :=
-  let A := Aof lam mu psi in
-  let B := ((c1 -! c2 *! (c1 -! ofQ N rho)) *! lam +! mu +! psi) /! A in
+Definition bd_A (lam mu psi : T) : T := Aof lam mu psi.
+Definition bd_B (lam mu psi : T) (rho : Q) : T :=
+  ((c1 -! c2 *! (c1 -! ofQ N rho)) *! lam +! mu +! psi) /! bd_A lam mu psi.
+Definition bd_p (lam mu psi : T) (rho origin : Q) : T :=
+  let A := bd_A lam mu psi in let B := bd_B lam mu psi rho in
   let term := nexp N (A *! ofQ N origin) *! (c1 +! B) in
-  let p := ((lam +! mu +! psi) -! A *! (term -! (c1 -! B)) /! (term +! (c1 -! B))) /! (c2 *! lam) in
+  ((lam +! mu +! psi) -! A *! (term -! (c1 -! B)) /! (term +! (c1 -! B))) /! (c2 *! lam).
+Definition bd_q0 (lam mu psi : T) (rho origin : Q) : T :=
+  let A := bd_A lam mu psi in let B := bd_B lam mu psi rho in
   let e := nexp N (opp N A *! ofQ N origin) in
-  let q0 := (c4 *! e) /! sqr (e *! (c1 -! B) +! (c1 +! B)) in
-  let first := nln N q0 in
-  let surv := if survival then first -! nln N (c1 -! p) else first in
+  (c4 *! e) /! sqr (e *! (c1 -! B) +! (c1 +! B)).
+Definition bd_surv (survival : bool) (lam mu psi : T) (rho origin : Q) : T :=
+  if survival then nln N (bd_q0 lam mu psi rho origin) -! nln N (c1 -! bd_p lam mu psi rho origin)
+  else nln N (bd_q0 lam mu psi rho origin).
+Definition bd_births (lam mu psi : T) (rho origin : Q) (xs : list Q) : T :=
+  nsum N (map (fun x => nln N lam +! bd_log_q (bd_A lam mu psi) (bd_B lam mu psi rho) origin x) xs).
+Definition bd_tips (serial : bool) (lam mu psi : T) (rho origin : Q) (ys : list Q) : T :=
+  if serial
+  then nsum N (map (fun y => if Qeq_bool origin y && Qpos_bool rho then zero N
+                             else nln N psi -! bd_log_q (bd_A lam mu psi) (bd_B lam mu psi rho) origin y) ys)
+  else zero N.
+Definition bd_rho (rho origin : Q) (ys : list Q) : T :=
+  let Nr := count_if (fun y => Qeq_bool origin y) ys in
+  if Nat.ltb 0 Nr && Qpos_bool rho then ofNat N Nr *! nln N (ofQ N rho) else zero N.
+
+Definition bd_log_prob (survival : bool) (lam mu psi : T) (rho origin : Q) (tips ints : list Q) : T :=
   let xs := map (fun h => (origin - h)%Q) ints in
   let ys := map (fun h => (origin - h)%Q) tips in
   let serial := existsb Qpos_bool tips in
-  let births := nsum N (map (fun x => nln N lam +! bd_log_q A B origin x) xs) in
-  let rho_tip y := Qeq_bool origin y && Qpos_bool rho in
-  let tipt := if serial
-              then nsum N (map (fun y => if rho_tip y then zero N
-                                         else nln N psi -! bd_log_q A B origin y) ys)
-              else zero N in
-  let Nr := count_if (fun y => Qeq_bool origin y) ys in
-  let rhot := if Nat.ltb 0 Nr && Qpos_bool rho then ofNat N Nr *! nln N (ofQ N rho) else zero N in
-  surv +! births +! tipt +! rhot.
+  bd_surv survival lam mu psi rho origin +! bd_births lam mu psi rho origin xs
+  +! bd_tips serial lam mu psi rho origin ys +! bd_rho rho origin ys.
 
 End BDSK.
